@@ -75,7 +75,18 @@ func C03(r *core.Report) {
 		seen[f.Key+"/0"] = true
 		r.OK("C03.R0", "source:"+f.Key, posP(r, f.Pos()), "lossy typed lookup (calls (*DB).Lookup, which compares a 3-byte hash only)")
 	}
-	r.Floor("C03.R0", 5)
+	// the look-up caches hold results of those lossy lookups that were stored before any re-check: reading them back is
+	// just as lossy as the lookup itself
+	for _, key := range []string{"huge-cache.(*Cache).GetSlotToCid", "huge-cache.(*Cache).GetCidToOffsetAndSize"} {
+		f := r.Anchor("C03.R0", key)
+		if f == nil {
+			continue
+		}
+		roles = append(roles, lossyRole{fn: f, key: 0, src: f.Key, nf: !strings.Contains(f.Key, "CidToOffset")})
+		seen[f.Key+"/0"] = true
+		r.OK("C03.R0", "source:"+f.Key, posP(r, f.Pos()), "cache of unverified lossy lookup results")
+	}
+	r.Floor("C03.R0", 7)
 	nWrappers, nConsumers, nProbes := 0, 0, 0
 	for i := 0; i < len(roles); i++ {
 		role := roles[i]
